@@ -319,7 +319,7 @@ func runC17(ch *Choices, cfg *RunCfg) (o *Outcome) {
 	}
 	// harness state owned by the scheduler goroutine
 	owner := map[uintptr]int{} // object -> task holding it (absent = nobody)
-	keep := []interface{}{}     // keep every object reachable: addresses must not be reused
+	keep := []interface{}{}    // keep every object reachable: addresses must not be reused
 	type pend struct {
 		call int64
 		obj  uintptr
